@@ -342,6 +342,7 @@ let handle (toks : string list) : string =
         | ["ss"; k; v] -> (xstep true st (SrcSet (n k, n v)), acc)
         | ["sd"; k] -> (xstep true st (SrcDel (n k)), acc)
         | ["sw"; c] -> (xstep true st (SrcWrite (n c)), acc)
+        | ["st"] -> (xstep true st SrcTouch, acc)
         | ["ds"; k; v] -> (xstep true st (DstSet (n k, n v)), acc)
         | ["dd"; k] -> (xstep true st (DstDel (n k)), acc)
         | ["y"; x; big] -> let st' = xstep true st (XSync ((x = "1"), (big = "1"))) in (st', show st' :: acc)
